@@ -351,7 +351,7 @@ func c07Check(c c07Case) *vResult {
 			if outage {
 				st.remoteDBQueryTimeout = 0
 			} else {
-				st.remoteDBQueryTimeout = 2 * time.Second
+				st.remoteDBQueryTimeout = vPrimaryPatience
 			}
 		case "tamper":
 			db := st.db
